@@ -76,7 +76,7 @@ ASSUMPTIONS = [
     "own conversion error above the band and is not generated); lat in [-90, 90], lon in "
     "[-180, 180]",
 ]
-MIN_NONTRIVIAL = {"quick": 10000, "thorough": 150000}
+MIN_NONTRIVIAL = {"quick": 10000, "thorough": 300000}
 REQUIRED_COUNTERS = {"geo.query.calls": 5000, "perm.installed": 2000,
                      "perm.exhaustive_families": 30, "range.query.calls": 200,
                      "split_units.calls": 300, "geo.distance.values": 5000,
@@ -88,10 +88,10 @@ def shards(tier, seed):
     q = tier == "quick"
     out = []
     for i in range(11):
-        out.append({"kind": "perm", "seed": seed, "shard": i, "n": 48 if q else 700})
+        out.append({"kind": "perm", "seed": seed, "shard": i, "n": 48 if q else 1500})
     for i in range(4):
-        out.append({"kind": "bulk", "seed": seed, "shard": i, "n": 26 if q else 400})
-    out.append({"kind": "range", "seed": seed, "shard": 0, "n": 150 if q else 2500})
+        out.append({"kind": "bulk", "seed": seed, "shard": i, "n": 26 if q else 800})
+    out.append({"kind": "range", "seed": seed, "shard": 0, "n": 150 if q else 4000})
     return out
 
 
